@@ -9,6 +9,7 @@ use cteepbd::{cte, energy_performance, types::*, Components, Factors, UserWF};
 use serde_json::{json, Value};
 
 mod gen;
+mod leaf;
 mod preds;
 mod preds2;
 
